@@ -29,8 +29,8 @@ ASSUMPTIONS = [
     "a step budget (sys.monitoring PY_START events) decides termination; wall-clock is only a watchdog",
 ]
 PLAN = {"quick": dict(programs=500, topologies=1400, depth=3), "thorough": dict(programs=12000, topologies=40000, depth=5)}
-FLOORS = {"quick": {"suite_graphs_judged": 80, "suite_tests_passed": 1400, "sequences_checked": 15000, "deferred_nodes_seen": 3000, "equivalences_checked": 3000, "topology_roots": 8000, "same_name_two_module_topologies": 200, "bare_and_parameterised_roots": 2000, "two_labels_one_type_roots": 1500, "user_generic_roots": 900, "equal_union_twins_roots": 600},
-          "thorough": {"suite_graphs_judged": 80, "suite_tests_passed": 1400, "sequences_checked": 400000, "deferred_nodes_seen": 80000, "equivalences_checked": 80000, "topology_roots": 200000, "bare_and_parameterised_roots": 40000, "two_labels_one_type_roots": 25000, "user_generic_roots": 20000, "equal_union_twins_roots": 12000}}
+FLOORS = {"quick": {"suite_graphs_judged": 80, "suite_tests_passed": 1400, "sequences_checked": 15000, "deferred_nodes_seen": 3000, "equivalences_checked": 3000, "topology_roots": 8000, "same_name_two_module_topologies": 200, "bare_and_parameterised_roots": 2000, "two_labels_one_type_roots": 1500, "user_generic_roots": 900, "equal_union_twins_roots": 600, "bare_nested_name_roots": 900},
+          "thorough": {"suite_graphs_judged": 80, "suite_tests_passed": 1400, "sequences_checked": 400000, "deferred_nodes_seen": 80000, "equivalences_checked": 80000, "topology_roots": 200000, "bare_and_parameterised_roots": 40000, "two_labels_one_type_roots": 25000, "user_generic_roots": 20000, "equal_union_twins_roots": 12000, "bare_nested_name_roots": 20000}}
 STEP_BUDGET = 2_000_000
 
 
@@ -259,6 +259,15 @@ def run_shard(sh):
                             continue
                         sh.count("equal_union_twins_roots")
                         check_root(sh, src, T2, steps, prog.source)
+                # a class whose fields name a class nested in its own body by its bare name (resolved through the class namespace)
+                if scal_srcs := [s_.src for r_ in roots for s_ in r_.walk() if s_.kind == "scalar"][:3]:
+                    leaf_src = rng.choice(scal_srcs)
+                    prog.run(f"@dataclasses.dataclass\nclass NH_{i}:\n    @dataclasses.dataclass\n    class Inner:\n        value: {leaf_src}\n"
+                             f"    label: str\n    inner: Inner\n    many: list[Inner]\n"
+                             f"class NP_{i}:\n    class Item:\n        weight: {leaf_src}\n    first: Item\n    rest: dict[str, Item]\n")
+                    for src in (f"NH_{i}", f"list[NH_{i}]", f"NP_{i}"):
+                        sh.count("bare_nested_name_roots")
+                        check_root(sh, src, prog.ev(src), steps, prog.source)
                 # parameterised user generics: fields declared in __init__ only, and as a dataclass
                 if comps or gens:
                     prog.run(f"_T{i} = typing.TypeVar('_T{i}')\n_U{i} = typing.TypeVar('_U{i}')\n"
